@@ -102,7 +102,12 @@ func (m *Machine) step(th *Thread) (yielded bool) {
 	}
 	in := fr.block.Instrs[fr.pc]
 	if p := in.Pos(); p.IsValid() {
-		m.curSite = m.L.posStr(p)
+		cs, ok := m.siteCache[p]
+		if !ok {
+			cs = m.L.posStr(p)
+			m.siteCache[p] = cs
+		}
+		m.curSite = cs
 	}
 	defer func() {
 		if r := recover(); r != nil {
@@ -301,7 +306,7 @@ func (m *Machine) exec(th *Thread, fr *Frame, in ssa.Instruction) bool {
 		fr.env[x] = m.get(fr, x.Tuple).(TupleV)[x.Index]
 		fr.pc++
 	case *ssa.Range:
-		fr.env[x] = m.mkRange(m.get(fr, x.X))
+		fr.env[x] = m.mkRange(fr, m.get(fr, x.X))
 		fr.pc++
 	case *ssa.Next:
 		fr.env[x] = m.nextRange(m.get(fr, x.Iter).(*RangeIter), x)
